@@ -8,6 +8,7 @@ import S3V.Driver.Sema
 import S3V.Driver.Defer
 import S3V.Driver.Coord
 import S3V.Driver.Args
+import S3V.Driver.Chunk
 
 namespace S3V.Driver
 
@@ -15,6 +16,7 @@ structure DState where
   sema : SemaD := {}
   defer : S3V.Defer.DQ Nat := S3V.Defer.DQ.init
   coord : S3V.Coord.Coord := {}
+  chunk : ChunkD := {}
 
 def DState.init : DState := {}
 
@@ -23,6 +25,7 @@ def step (st : DState) (line : String) : DState × String :=
   match toks with
   | ["reset"] => (DState.init, "ok")
   | "plan" :: rest => (st, planStep rest)
+  | "chunk" :: _ | "agg" :: _ => let r := chunkStep st.chunk toks; ({ st with chunk := r.1 }, r.2)
   | "args" :: rest => (st, argsStep rest)
   | "coord" :: rest => let r := coordStep st.coord rest; ({ st with coord := r.1 }, r.2)
   | "defer" :: rest => let r := deferStep st.defer rest; ({ st with defer := r.1 }, r.2)
